@@ -328,6 +328,7 @@ func cmdSwitchClauses(p *packages.Package, fd *ast.FuncDecl) []*ast.CaseClause {
 
 // E3BoundingBoxes decides the fold rules for Path.Bounds, Path.FastBounds and the Rect hull methods.
 func E3BoundingBoxes(c *core.Ctx, r *core.Report) {
+	r.Rule("E3.hull-every-return", "Rect.Transform, Rect.Add and Rect.AddPoint return on every path either an operand unchanged or a Rect whose four elements are the min/max accumulators of the function: a shortcut that returns the images of two opposite corners is unordered under a mirroring matrix")
 	r.Rule("E3.polarity", "in a bounding-box function the variables returned as Rect.X0/Y0 are only updated by math.Min folds and X1/Y1 only by math.Max folds")
 	r.Rule("E3.homogeneity", "every math.Min/math.Max nested inside a fold of a bounding-box function has the same operator as the fold")
 	r.Rule("E3.fold-form", "an accumulator is only ever assigned `acc = math.F(acc, …)` inside the command loop")
@@ -441,6 +442,59 @@ func E3BoundingBoxes(c *core.Ctx, r *core.Report) {
 		folds := collectFolds(p, fd, accs, r, c, "E3", "canvas."+fname)
 		r.Count("E3.folds:"+fname, len(folds))
 		r.Floor("E3.folds:"+fname, 4)
+		// every return of a hull method hands out an ordered rectangle: the receiver or argument as it is,
+		// or a Rect whose four elements are the min/max accumulators
+		{
+			nret := 0
+			ast.Inspect(fd.Body, func(n ast.Node) bool {
+				if _, ok := n.(*ast.FuncLit); ok {
+					return false
+				}
+				rs, ok := n.(*ast.ReturnStmt)
+				if !ok || len(rs.Results) != 1 {
+					return true
+				}
+				nret++
+				key := fmt.Sprintf("canvas.%s|return #%d is an ordered rectangle", fname, nret)
+				res := core.Unparen(rs.Results[0])
+				if _, ok := res.(*ast.Ident); ok {
+					r.OK("E3.hull-every-return", key, c.Pos(rs.Pos()), "an operand as it is")
+					return true
+				}
+				cl, ok := res.(*ast.CompositeLit)
+				good := ok && len(cl.Elts) == 4
+				if good {
+					for i, el := range cl.Elts {
+						v := el
+						if kv, ok := el.(*ast.KeyValueExpr); ok {
+							v = kv.Value
+						}
+						id, ok := core.Unparen(v).(*ast.Ident)
+						if !ok {
+							good = false
+							break
+						}
+						isAcc := false
+						for _, a := range accs {
+							if core.ObjOf(info, id) == a {
+								isAcc = true
+							}
+						}
+						_ = i
+						if !isAcc {
+							good = false
+						}
+					}
+				}
+				if good {
+					r.OK("E3.hull-every-return", key, c.Pos(rs.Pos()), "")
+				} else {
+					r.Fail("E3.hull-every-return", key, c.Pos(rs.Pos()), fmt.Sprintf("`%s` returns a rectangle that is not built from the min/max accumulators: for a matrix that mirrors an axis the image of (X0,Y0) is not the lower-left corner, the result has X0 > X1 or Y0 > Y1 and is not the bounds of the transformed corners", c.Src(rs)))
+				}
+				return true
+			})
+			r.Count("E3.hull-returns", nret)
+		}
 		var any [4]map[string]bool
 		for i := range any {
 			any[i] = map[string]bool{}
